@@ -317,6 +317,7 @@ func (m *Monitors) atEnd() {
 	m.checkPrefix()
 	m.checkVotes()
 	m.checkExecEnd()
+	m.checkStoredBlocks()
 	m.evidence.update()
 	m.Obs["unclassified_signatures"] += int64(m.unclassified + m.evidence.unclassified)
 }
